@@ -7,6 +7,9 @@ R2 INTRINSICS: from_square = 1 << sq; to_square = Square::new(trailing_zeros); p
    masks with 63.
 R3 ITERATOR: next returns None iff the word is zero, else the lowest square, and clears exactly
    that bit.
+R4 ITERATOR-OVERRIDES: `count`, `last`, `for_each`, collecting .. are std's defaults over next(); a method of
+   BitBoard's Iterator impl other than next replaces one of them: each such override is put through the panic
+   audit (no shift / arithmetic overflow, no slice panic for any word) and reported as not compared with next().
 Given u64 semantics these decide the set laws for every value."""
 from .common import *
 
@@ -191,7 +194,27 @@ def r3(ctx):
         ctx.inconclusive(R, 'next(): state update not recognised (%s): %s' % (why, sh(fin)))
 
 
+def r4(ctx):
+    R = 'C20.R4'
+    from . import panics
+    f = ctx.facts()
+    pre = '<bitboard::BitBoard as core::iter::traits::'
+    impl = sorted(k for k in f.bodies if k.startswith(pre) and '::{' not in k)
+    extra = [k for k in impl if not k.endswith('Iterator>::next')]
+    if not impl:
+        ctx.inconclusive(R, 'no Iterator impl of BitBoard found')
+        return
+    if not extra:
+        ctx.ok(R, 'BitBoard overrides no Iterator method besides next(): count / last / for_each / collect are std defaults over next()',
+               where(f.bodies[impl[0]]))
+        return
+    panics.audit(ctx, R, extra)
+    for k in extra:
+        ctx.inconclusive(R, '%s is overridden: that it visits the same squares as next() is not analysed (only that it cannot panic)' % k)
+
+
 def run(ctx):
     r1(ctx)
     r2(ctx)
     r3(ctx)
+    r4(ctx)
